@@ -139,6 +139,7 @@ type concVariant struct {
 	FailEncode int         `json:"fail_encode,omitempty"` // the k-th Encode call of every commit fails once
 	FailDecode int         `json:"fail_decode,omitempty"` // the k-th decode call of every preload fails once
 	FailRead   int         `json:"fail_read,omitempty"`   // the k-th ledger read of every preload fails once
+	Persist    bool        `json:"persist,omitempty"`     // the encoder / decoder keeps failing from the k-th call on (several workers fail in the same call)
 }
 
 // execConc executes tr under cv; commits are scheduled, optionally with one failing encode,
@@ -196,6 +197,7 @@ func execConc(tr *Trace, cv concVariant, stats *Stats) ([]commitPoint, *Violatio
 func (w *World) commitWithEncodeFailure(st *Step, cv concVariant, r *Rng) *Violation {
 	w.Ctl.Reset()
 	w.Ctl.FailAt["encode"] = cv.FailEncode
+	w.Ctl.Persist = cv.Persist
 	fired0 := w.Ctl.Fired["encode"]
 	var err error
 	run := func() {
@@ -253,6 +255,7 @@ func (w *World) preloadWithDecodeFailure(st *Step, cv concVariant, r *Rng) *Viol
 	w.Ctl.Reset()
 	if cv.FailDecode > 0 {
 		w.Ctl.FailAt["decode"] = cv.FailDecode
+		w.Ctl.Persist = cv.Persist
 	}
 	if cv.FailRead > 0 {
 		w.Ledger.SetPlan(&FaultPlan{FailReadAt: map[int]bool{cv.FailRead: true}})
@@ -570,6 +573,9 @@ func init() {
 					cv.FailDecode = vr.Range(1, 30)
 				case 2:
 					cv.FailRead = vr.Range(1, 14)
+				}
+				if (cv.FailEncode > 0 || cv.FailDecode > 0) && vr.Chance(0.4) {
+					cv.Persist = true
 				}
 				a := &c16aux{Mode: "workers", Variant: cv}
 				if v := judgeWorkers(tr, cv, agg); v != nil {
